@@ -6,6 +6,8 @@ loses none; the round-trip equalities themselves are decided on the compiled cod
 -/
 import Genq.Model.Types
 import Genq.Model.Codec
+import Genq.Model.CodecSkel
+import Genq.Extracted.Codec
 import Genq.Proofs.CodecRT
 namespace Genq.Types
 
@@ -166,3 +168,14 @@ end Witness
 
 end Genq.Codec
 
+namespace Genq
+/-- **C06_codec_template_tie** — the templates (and FlattenedFields) extracted from /repo on this run are the ones
+    the Codec model was written from: an edit of the generated (un)marshaling code breaks this equality even when no
+    sampled response behaves differently. -/
+theorem C06_codec_template_tie :
+    Extracted.unmarshalTmpl = CodecSkel.unmarshalTmpl ∧
+    Extracted.unmarshalHelperTmpl = CodecSkel.unmarshalHelperTmpl ∧
+    Extracted.marshalTmpl = CodecSkel.marshalTmpl ∧
+    Extracted.marshalHelperTmpl = CodecSkel.marshalHelperTmpl ∧
+    Extracted.flattenedFieldsSkeleton = CodecSkel.flattenedFieldsSkeleton := ⟨rfl, rfl, rfl, rfl, rfl⟩
+end Genq
